@@ -1,7 +1,26 @@
 import Rare.Base.Proto
+import Rare.Model.C01
 namespace Rare.Drv.C05
+open Rare Rare.C01 Rare.Proto Rare.Pipeline
 
+def insertSorted (k : Bytes) : List (Bytes × Nat) → List (Bytes × Nat)
+  | [] => [(k, 1)]
+  | (k', n) :: r =>
+    if k = k' then (k', n + 1) :: r
+    else if k < k' then (k, 1) :: (k', n) :: r
+    else (k', n) :: insertSorted k r
+
+/-- `agg <inputs hexlist> …`: the final histogram every schedule must end with (keys sorted bytewise),
+    the matched total, and the two flags the harness reports (`1` = the property held in that run). -/
 def handle : List String → String
+  | "agg" :: ins :: _ =>
+    match decHexList ins with
+    | some inputs =>
+      let ms := seqMatches harnessCls (allLines inputs)
+      let counts := ms.foldl (fun acc l => insertSorted l.text acc) []
+      let body := if counts.isEmpty then "." else ",".intercalate (counts.map fun p => s!"{Hex.enc p.1}={p.2}")
+      s!"ok final={body} matched={ms.length} renders_ok=1 excl_ok=1"
+    | none => "bad-args"
   | _ => "bad-op"
 
 end Rare.Drv.C05
